@@ -760,7 +760,9 @@ def select__element_kind_test(self: XPathFunction, context: ta.ContextType = Non
             if len(self) == 1:
                 yield cast(ElementNode, item)  # Already selected by sequence type test
             elif isinstance(item, ElementNode):
-                type_annotation = self[1].name
+                type_annotation = self[1].name or get_expanded_name(
+                    cast(str, self[1].value), self.parser.namespaces
+                )
                 if item.nilled:
                     if self[1].occurrence in ('*', '?'):
                         yield item
